@@ -75,7 +75,7 @@ def generate(rng, tier, index):
         r = rng.below(100)
         if r < 34 or len(keys) < 4:
             kind = rng.choice(KINDS)
-            n = rng.range(1, 12) if kind != "mix" else rng.range(50, 55)
+            n = rng.range(1, 12) if (kind != "mix" or rng.chance(35)) else rng.range(50, 55)      # a MIX n of a cell number replaces SOLUTION n in RUN_CELLS n
             m = n + (rng.range(1, 3) if (rng.chance(35) and kind != "mix") else 0)
             ops.append({"op": "def", "kind": kind, "n": n, "m": m, "v": rng.range(1, 9)})
             keys |= {(kind, i) for i in range(n, m + 1)}
@@ -121,6 +121,8 @@ def generate(rng, tier, index):
             sols = sorted(n for k, n in keys if k == "solution" and n < 50)
             if sols:
                 ops.append({"op": "run_cells", "n": rng.choice(sols)})
+                if rng.chance(40):
+                    ops[-1]["n2"] = rng.choice(sols)       # several cells in one RUN_CELLS: they run in ascending order
         else:
             sols = sorted(n for k, n in keys if k == "solution" and n < 50)
             if len(sols) >= 2:
@@ -172,17 +174,21 @@ def op_text(op, store, explicit=False):
             t += "SAVE %s %s\n" % (kd, rng_txt(op["n"], op["m"]))
         return t + "SAVE solution %d\nEND\n" % op["sol"]
     if k == "run_cells":
-        n = op["n"]
+        cells = sorted(set([op["n"]] + ([op["n2"]] if "n2" in op else [])))
         if not explicit:
-            return "RUN_CELLS\n -cells %d\n -time_step 10\nEND\n" % n
-        t = "USE solution %d\n" % n
-        for kd in REACTANTS + ["reaction", "reaction_temperature", "reaction_pressure"]:
-            if (kd, n) in store:
-                t += "USE %s %d\n" % (kd, n)
-        for kd in ["solution"] + SAVABLE:
-            if (kd, n) in store:
-                t += "SAVE %s %d\n" % (kd, n)
-        return t + "END\n"
+            return "RUN_CELLS\n -cells %s\n -time_step 10\nEND\n" % " ".join(str(c) for c in cells)
+        t = ""
+        for n in cells:
+            # a MIX of the cell's own number takes the place of its solution
+            t += ("USE mix %d\n" if ("mix", n) in store else "USE solution %d\n") % n
+            for kd in REACTANTS + ["reaction", "reaction_temperature", "reaction_pressure"]:
+                if (kd, n) in store:
+                    t += "USE %s %d\n" % (kd, n)
+            for kd in ["solution"] + SAVABLE:
+                if (kd, n) in store:
+                    t += "SAVE %s %d\n" % (kd, n)
+            t += "END\n"
+        return t
     if k == "mixsave":
         return "MIX %d\n %d 0.4\n %d 0.6\nSAVE solution %d\nEND\n" % (op["k"], op["a"], op["b"], op["c"])
     return "END\n"
@@ -205,7 +211,7 @@ class Model:
         if k == "def" and op["kind"] == "mix" and (("solution", 1) not in s or ("solution", 2) not in s):
             return None          # defining a MIX runs the mix: its solutions must exist
         if k == "def":
-            cid = "def:%s:%d" % (op["kind"], op["v"]) if op["kind"] != "mix" else "def:mix:%d:%d" % (op["n"], op["v"])     # content is a function of kind and variant
+            cid = "def:%s:%d" % (op["kind"], op["v"])     # content is a function of kind and variant
             if op["kind"] == "solution":
                 # a solution's stored content is the result of its initial calculation: the same text defined by two different operations agrees
                 # to solver tolerance only (starting estimates differ), so only the numbers of one definition (a range) must be identical copies
@@ -250,13 +256,14 @@ class Model:
             s[("solution", op["sol"])] = self.new("save")
             touched.add(("solution", op["sol"]))
         elif k == "run_cells":
-            n = op["n"]
-            if ("solution", n) not in s or ("mix", n) in s:
+            cells = sorted(set([op["n"]] + ([op["n2"]] if "n2" in op else [])))
+            if any(("solution", n) not in s for n in cells):
                 return None
-            for kd in ["solution"] + REACTANTS:
-                if (kd, n) in s and not (kd == "kinetics" and False):
-                    s[(kd, n)] = self.new("run")
-                    touched.add((kd, n))
+            for n in cells:
+                for kd in ["solution"] + REACTANTS:
+                    if (kd, n) in s:
+                        s[(kd, n)] = self.new("run")
+                        touched.add((kd, n))
         elif k == "mixsave":
             if ("solution", op["a"]) not in s or ("solution", op["b"]) not in s:
                 return None
@@ -433,7 +440,7 @@ def check_plan(ctx, plan):
         for text, emitted in calls:
             for i, r, before, after in emitted:
                 o = plan["ops"][i]
-                if o["op"] == "run_cells" and not any((kd, o["n"]) in before for kd in REACTANTS + ["reaction"]):
+                if o["op"] == "run_cells" and any(not any((kd, c) in before for kd in REACTANTS + ["reaction", "mix"]) for c in set([o["n"]] + ([o["n2"]] if "n2" in o else []))):
                     return False       # RUN_CELLS speciates a lone solution; 'USE solution n / SAVE solution n' alone calculates nothing
         return True
 
@@ -486,7 +493,7 @@ def describe(op):
     if k == "save":
         return "save %s of cell %d -> %s (+solution %d)" % (",".join(op["kinds"]) or "-", op["a"], rng_txt(op["n"], op["m"]), op["sol"])
     if k == "run_cells":
-        return "run_cells %d" % op["n"]
+        return "run_cells %d%s" % (op["n"], (" %d" % op["n2"]) if "n2" in op else "")
     return "mix %d of %d,%d -> solution %d" % (op["k"], op["a"], op["b"], op["c"])
 
 
